@@ -23,6 +23,7 @@ THEOREMS = [
     "HgVerif.DynLife.removeAll_first_error",
     "HgVerif.DynLife.failed_child_start_leaves_nothing",
     "HgVerif.DynLife.node_language",
+    "HgVerif.DynLife.run_node_language",
     "HgVerif.DynLife.run_clean_at_return_prefix",
     "HgVerif.DynLife.removeAll_current_prefix",
     "HgVerif.DynLife.swRun_no_violation",
@@ -150,10 +151,10 @@ def gen_faults(rng, n, used, created, how_many):
     faults = []
     for _ in range(how_many):
         r = rng.random()
-        if r < 0.36:
+        if r < 0.30:
             faults.append("fs %d" % rng.randint(1, max(1, created * n + 1)))
         elif r < 0.64 and used:
-            faults.append("fe %d %d %d" % (rng.choice(used), rng.randrange(n), rng.randint(1, 3)))
+            faults.append("fe %d %d %d" % (rng.choice(used), rng.randrange(n), rng.choice([1, 1, 2, 2, 3])))
         elif used:
             faults.append("fx %d %d" % (rng.choice(used), rng.randrange(n)))
     out = []
@@ -321,14 +322,22 @@ def monitor(stream, case, out):
         return []
     v = []
     must_be_clean_at_return = p["cleanup"] or p["res"] == "ok"
-    st = {}            # node -> "failed" | "started" | "stopped"
+    st = {}                               # node -> "failed" | "started" | "stopped"   (from the probe hooks)
     order_start, order_stop = {}, {}      # child graph -> node indices in start / stop order
-    open_obs = {}      # observer `before` without `after`:  (kind, name) -> count
-    obs_live = set()
-    first_fail = None  # (phase, hook phase name, node)
-    started_at_ret = stopped_at_ret = 0
+    open_obs = {}                         # (notification family, name) -> `before` notifications not yet closed
+    obs_live = set()                      # observer: after-start seen, no before-stop yet
+    first_fail = None                     # (phase, hook phase name, node): first failing hook before run() returned
     stop_fault_in_final_stop = False
+    at_ret = None                         # snapshot when run() returned
+
+    def snapshot():
+        return (sum(1 for x in st.values() if x in ("started", "stopped")), sum(1 for x in st.values() if x == "stopped"),
+                len(obs_live), sorted(n for n, x in st.items() if x == "started"))
+    closes = {"s>": "s", "s!": "s", "x>": "x", "G>": "G", "G!": "G", "H>": "H"}
+    family = {"s": "start", "x": "stop", "G": "graph start", "H": "graph stop"}
     for (ph, tok, after_dead) in p["seq"]:
+        if ph == "rel" and at_ret is None:
+            at_ret = snapshot()
         m = EV.match(tok)
         if not m:
             v.append("[dyn-trace] unreadable event %r" % tok)
@@ -358,49 +367,41 @@ def monitor(stream, case, out):
             order_stop.setdefault(child, []).append(int(idx))
             if tag == "px!" and ph == "stop":
                 stop_fault_in_final_stop = True
-        # the first failure that is not swallowed: the first failing hook of the cycles, else of the final stop
-        if tag in ("ps!", "pe!", "px!"):
-            name = {"ps!": "start", "pe!": "evaluate", "px!": "stop"}[tag]
-            if first_fail is None and ph != "rel":
-                first_fail = (ph, name, node)
-            elif first_fail is not None and first_fail[0] == "stop" and ph not in ("stop", "rel"):
-                first_fail = (ph, name, node)
-        # observer pairing
+        # events are in time order: the first failing hook before run() returned is the failure that is not swallowed
+        if tag in ("ps!", "pe!", "px!") and first_fail is None and ph != "rel":
+            first_fail = (ph, {"ps!": "start", "pe!": "evaluate", "px!": "stop"}[tag], node)
+        # observer pairing: every `before` is closed by an `after` (or, for a start, by `failed`)
         if tag in ("s<", "x<", "G<", "H<"):
             open_obs[(tag[0], node)] = open_obs.get((tag[0], node), 0) + 1
-        elif tag in ("s>", "s!", "x>", "G>", "G!", "H>"):
-            kkey = (tag[0], node)
-            if tag == "x>" or tag == "H>" or tag[1] != "!" or True:
-                if open_obs.get(kkey, 0) <= 0 and not (tag in ("s!",)):
-                    v.append("[dyn-observer] %s without a matching `before`" % tok)
-            # `x!` / `H!` are extra notifications between before and after; `s!` / `G!` close a start
-            if tag in ("s>", "s!", "G>", "G!", "x>", "H>"):
-                open_obs[kkey] = max(0, open_obs.get(kkey, 0) - 1)
+        elif tag in closes:
+            k2 = (closes[tag], node)
+            if open_obs.get(k2, 0) <= 0:
+                v.append("[dyn-observer] %s without a matching `before`" % tok)
+            else:
+                open_obs[k2] -= 1
+        elif tag in ("x!", "H!"):
+            if open_obs.get((tag[0], node), 0) <= 0:
+                v.append("[dyn-observer] %s outside a stop" % tok)
         if tag == "s>":
             obs_live.add(node)
             if st.get(node) != "started":
                 v.append("[dyn-observer] after-start notification for %s whose start hook did not complete" % node)
         if tag == "x<":
             obs_live.discard(node)
-        if ph != "rel":
-            started_at_ret = sum(1 for s in st.values() if s in ("started", "stopped"))
-            stopped_at_ret = sum(1 for s in st.values() if s == "stopped")
-            live_at_ret = len(obs_live)
-            left_at_ret = sorted(n for n, s in st.items() if s == "started")
-    if not [x for x in p["seq"] if x[0] != "rel"]:
-        started_at_ret = stopped_at_ret = live_at_ret = 0
-        left_at_ret = []
+    if at_ret is None:
+        at_ret = snapshot()
+    left_at_ret = at_ret[3]
     # exactly once, in time
     if must_be_clean_at_return and left_at_ret:
         tagname = "[dyn-left-started-after-stop-fault]" if stop_fault_in_final_stop else "[dyn-left-started]"
         v.append("%s started but not stopped when run() returned (cleanup_on_error=%d, res=%s): %s"
                  % (tagname, 1 if p["cleanup"] else 0, p["res"], left_at_ret[:4]))
-    left_final = sorted(n for n, s in st.items() if s == "started")
+    left_final = sorted(n for n, x in st.items() if x == "started")
     if left_final:
         v.append("[dyn-left-started-at-release] never stopped, even by the release of the executor: %s" % left_final[:4])
-    for kkey, c in open_obs.items():
-        if c > 0 and not (kkey[1] in left_at_ret):
-            v.append("[dyn-observer] `before` %s of %s without `after`" % ({"s": "start", "x": "stop", "G": "graph start", "H": "graph stop"}[kkey[0]], kkey[1]))
+    for k2, c in sorted(open_obs.items()):
+        if c > 0:
+            v.append("[dyn-observer] `before %s` of %s without `after`" % (family[k2[0]], k2[1]))
     # order inside a child graph: nodes start in rank order, stop in the reverse order
     for child, s_order in order_start.items():
         if s_order != sorted(s_order):
@@ -408,12 +409,11 @@ def monitor(stream, case, out):
         x_order = order_stop.get(child, [])
         if x_order and x_order != sorted(x_order, reverse=True):
             v.append("[dyn-order] child %s: stop order %s is not the reverse of the start order %s" % (child, x_order, s_order))
-    # the counters the harness took at the return of run() and after the release (independent of the event log)
-    if (started_at_ret, stopped_at_ret, live_at_ret) != p["ret"]:
-        v.append("[dyn-counters] counters at return %s differ from the event log %s" % (p["ret"], (started_at_ret, stopped_at_ret, live_at_ret)))
-    if must_be_clean_at_return and (p["ret"][0] != p["ret"][1] or p["ret"][2] != 0):
-        v.append("[dyn-left-started] counters at the return of run(): started=%d stopped=%d observer-live=%d" % p["ret"]) \
-            if not left_at_ret else None
+    # the counters the harness took at the return of run() and after the release (not derived from the event log)
+    if at_ret[:3] != p["ret"]:
+        v.append("[dyn-counters] counters at return %s differ from the event log %s" % (p["ret"], at_ret[:3]))
+    if must_be_clean_at_return and not left_at_ret and (p["ret"][0] != p["ret"][1] or p["ret"][2] != 0):
+        v.append("[dyn-left-started] counters at the return of run(): started=%d stopped=%d observer-live=%d" % p["ret"])
     f = p["fin"]
     if f[0] != f[1] or f[2] != 0 or f[3] != 0:
         v.append("[dyn-left-started-at-release] counters after release: started=%d stopped=%d double=%d observer-live=%d" % f)
@@ -421,16 +421,14 @@ def monitor(stream, case, out):
     if first_fail is None:
         want = "ok"
     else:
-        outer = "stop" if first_fail[0] == "stop" else "evaluate"
-        want = "err:%s/%s:%s" % (outer, first_fail[1], first_fail[2])
+        want = "err:%s/%s:%s" % ("stop" if first_fail[0] == "stop" else "evaluate", first_fail[1], first_fail[2])
     if p["res"] != want:
         v.append("[dyn-error] run() reported %s, the first failure was %s" % (p["res"], want))
-    if first_fail is not None and first_fail[0] not in ("stop", "rel"):
-        # nothing may be evaluated after the failing cycle
+    if first_fail is not None and first_fail[0] != "stop":
         later = [k for k in range(first_fail[0] + 1, p["ncyc"]) if k not in p["dead"]]
         if later:
             v.append("[dyn-after-failure] cycles %s ran after the failure in cycle %d" % (later[:3], first_fail[0]))
-    return [x for x in v if x]
+    return v
 
 
 # ----------------------------------------------------------------------------- features / non-trivial
